@@ -327,7 +327,7 @@ fn structural_scan() -> (bool, Vec<String>) {
                 let pth = e.path();
                 if pth.is_dir() {
                     walk(&pth, hits);
-                } else if pth.extension().map(|x| x == "rs").unwrap_or(false) && !pth.ends_with("verif_hooks.rs") {
+                } else if pth.extension().map(|x| x == "rs").unwrap_or(false) && !pth.to_string_lossy().contains("verif_hooks") {
                     let src = std::fs::read_to_string(&pth).unwrap_or_default();
                     let src = src.split("#[cfg(test)]\nmod tests").next().unwrap_or("").to_string();
                     for (ln, line) in src.lines().enumerate() {
